@@ -118,6 +118,11 @@ func genLinkTarget(r *RNG, linkPath string, existing []string) string {
 		if dir == "/" && !r.Chance(1, 8) {
 			return r.Pick(namePool)
 		}
+		if dir == "/" && r.Chance(1, 3) {
+			// out of the base root and into the sibling backup directory of the disjoint layering:
+			// the backup PrefixFS accepts the copy, the base PrefixFS refuses the restore
+			return "../bak/" + r.Pick(namePool)
+		}
 		return "../" + r.Pick(namePool)
 	}
 }
